@@ -276,6 +276,14 @@ func (app *Application) submitEvidence(
 	if b {
 		return roothash.ErrDuplicateEvidence
 	}
+
+	// Storing the evidence and slashing the node must be atomic: when slashing fails (e.g. the
+	// evidence is for a key that is not a registered node) the failed transaction must leave no
+	// trace of the evidence in state.
+	ctx = ctx.NewTransaction()
+	defer ctx.Close()
+	state = roothashState.NewMutableState(ctx.State())
+
 	if err = state.SetEvidenceHash(ctx, rtState.Runtime.ID, round, evHash); err != nil {
 		return err
 	}
@@ -288,6 +296,8 @@ func (app *Application) submitEvidence(
 	); err != nil {
 		return fmt.Errorf("error slashing runtime node: %w", err)
 	}
+
+	ctx.Commit()
 
 	return nil
 }
